@@ -2718,7 +2718,7 @@ static Node *unary(Token **rest, Token *tok) {
   if (equal(tok, "+")) {
     Node *node = cast(rest, tok->next);
     add_type(node);
-    if (is_integer(node->ty) && node->ty->size < 4)
+    if (is_integer(node->ty) && (node->ty->size < 4 || promoted_type(node) != node->ty))
       node = new_cast(node, ty_int);
     return node;
   }
